@@ -563,6 +563,13 @@ func RunReplay(t *testing.T, path string) (reproduced bool, toolErr string) {
 	})
 	defer stopWatch()
 	res := p.Run(t, rf.Case, RunOpts{Record: true, KeepLog: true, Expect: rf.Enabled})
+	if res.ToolErr != "" && strings.Contains(res.ToolErr, "replay diverged") {
+		// the code under test differs from the one the file was recorded on:
+		// the choice list is still a valid schedule, so run it unasserted
+		fmt.Printf("replay: %s; re-running the choice list without the recorded enabled sets\n", res.ToolErr)
+		res = p.Run(t, rf.Case, RunOpts{Record: true, KeepLog: true})
+		rf.EventHash = ""
+	}
 	for _, l := range res.Log {
 		fmt.Println("  " + l)
 	}
